@@ -97,6 +97,20 @@ impl Check for C13 {
         let scan = rng.chance(1, 6);
         let mut ops = vec![];
         let mut oneshot = 1000u32;
+        // the limiter has been up for a while (weeks: millisecond counters of 32 bits wrap after 49.7 days)
+        match rng.below(12) {
+            0 => ops.push(((1u64 << 32) * 1_000_000 - rng.below(3 * d), 0)),
+            1 => ops.push(((1u64 << 31) * 1_000_000 - rng.below(3 * d), 0)),
+            2 => ops.push((400 * 86_400 * 1_000_000_000, 0)),
+            _ => {}
+        }
+        // very many addresses at once (a scan): the table is big when the keys of interest come back
+        if rng.chance(1, 1500) {
+            for _ in 0..rng.range(66_000, 70_000) {
+                oneshot += 1;
+                ops.push((if rng.chance(1, 50) { d / 1000 } else { 0 }, oneshot));
+            }
+        }
         for _ in 0..n {
             let dt = match style {
                 0 => 0,
@@ -131,7 +145,7 @@ impl Check for C13 {
 
     fn execute(&self, sc: &LimSc) -> RunReport {
         let mut rep = RunReport::default();
-        if sc.limit == 0 || sc.duration_ns == 0 || sc.ops.len() > 5000 {
+        if sc.limit == 0 || sc.duration_ns == 0 || sc.ops.len() > 200_000 {
             return rep; // outside the property's domain (limit >= 1, duration > 0)
         }
         let d = sc.duration_ns;
@@ -207,9 +221,11 @@ impl Check for C13 {
         {
             let mut last_seen: BTreeMap<u32, u64> = BTreeMap::new();
             let mut prev_tracked = 0usize;
-            for x in &base {
+            let big = base.len() > 5000;
+            for (xi, x) in base.iter().enumerate() {
                 last_seen.insert(x.key, x.t);
-                if x.admitted {
+                // (huge histories: the quadratic count is sampled)
+                if x.admitted && (!big || xi % 997 == 0 || xi + 50 > base.len()) {
                     let recent = last_seen.values().filter(|t| x.t - **t <= 4 * d).count();
                     if x.tracked > recent {
                         rep.violate(
